@@ -2,6 +2,7 @@ package rules
 
 import (
 	"sort"
+	"strings"
 
 	"golang.org/x/tools/go/ssa"
 
@@ -24,6 +25,53 @@ type mainBody struct {
 
 var mainBodiesCache = map[*core.Ctx][]*mainBody{}
 
+// mainOpaque: main hands part of a mode to a helper the main-level rules do not read through.
+var mainOpaque = map[*core.Ctx]string{}
+
+// mainUnreadable reports (as UNDECIDED) that main delegates in a form the rules do not follow: part of a
+// mode - a procedure call, a look-up of the configuration - sits in a helper of package main that is
+// not itself a function running a whole mode.
+func mainUnreadable(c *core.Ctx, R string) bool {
+	bodies := mainBodies(c)
+	if mainOpaque[c] == "" {
+		isBody := map[*ssa.Function]bool{}
+		for _, b := range bodies {
+			isBody[b.fn] = true
+		}
+		for _, b := range bodies {
+			for _, ci := range core.Calls(b.fn) {
+				g := ci.Common().StaticCallee()
+				if g == nil || fnPkgPath(g) != pMain || len(g.Blocks) == 0 || isBody[g] {
+					continue
+				}
+				relevant := false
+				for _, prm := range g.Params {
+					if strings.Contains(prm.Type().String(), "stgutg.Conf") {
+						relevant = true
+					}
+				}
+				for _, cj := range core.Calls(g) {
+					n := core.CalleeName(cj.Common())
+					if strings.HasPrefix(n, pStg+".") || strings.HasPrefix(n, pTglib+".") || strings.HasPrefix(n, "net.") || strings.Contains(n, "xdpgtp") {
+						relevant = true
+					}
+				}
+				if relevant {
+					mainOpaque[c] = g.Name()
+				}
+			}
+		}
+		if mainOpaque[c] == "" {
+			mainOpaque[c] = "-"
+		}
+	}
+	if who := mainOpaque[c]; who != "-" {
+		c.SoftUndecided("%s: main hands part of a mode over to %s; the main-level rules read main and functions that run a whole mode", R, who)
+		return true
+	}
+	return false
+}
+
 // mainBodies: main, followed - when main has no ConnectToAmf call of its own - by the functions of
 // package main it calls that have one, in the order of their calls in main.
 func mainBodies(c *core.Ctx) []*mainBody {
@@ -39,6 +87,12 @@ func mainBodies(c *core.Ctx) []*mainBody {
 		for _, ci := range core.Calls(mainFn) {
 			g := ci.Common().StaticCallee()
 			if g != nil && fnPkgPath(g) == pMain && len(g.Blocks) > 0 && len(core.CallsTo(g, pTglib+".ConnectToAmf")) > 0 {
+				// a function that runs a whole mode (connects, sets up, creates and registers); a helper
+				// that only wraps the connection is not a body the rules can read on its own
+				if len(core.CallsTo(g, pStg+".ManageNGSetup")) == 0 || len(core.CallsTo(g, pStg+".RegisterUE")) == 0 || len(core.CallsTo(g, pStg+".CreateUE")) == 0 {
+					mainOpaque[c] = g.Name()
+					continue
+				}
 				calls = append(calls, ci)
 			}
 		}
